@@ -1559,9 +1559,11 @@ static void vf_init(void)
 static uint64_t vf_ncases(int tier) { (void)tier; return nplan; }
 static void vf_fini(void) { fam_max_flush(); }
 
+#include "h_mf_extreme.h"
 static void vf_case(uint64_t cno, vf_rng *r)
 {
     plan_t const pl = plan[cno];
+    if (cno % 8 == 3) { mf_extreme(r, "", 64); if (vf.case_viol) { return; } }
     switch (pl.kind)
     {
     case K_MF:
